@@ -359,6 +359,6 @@ impl Prop for TimeSetClear {
 
 pub fn run(env: &mut Env) {
     let t = env.thorough();
-    env.run_random::<SetClear>(if t { 40_000_000 } else { 2_000_000 });
-    env.run_random::<TimeSetClear>(if t { 5_000_000 } else { 300_000 });
+    env.run_random::<SetClear>(if t { 40_000_000 } else { 5_000_000 });
+    env.run_random::<TimeSetClear>(if t { 5_000_000 } else { 1_000_000 });
 }
